@@ -186,11 +186,13 @@ pub fn portfolio(case_seed: u64, k: u32, pilot_steps: u32, st: bool) -> SchedSpe
     } else if k == 0 {
         SchedKind::Random { sticky: 0 }
     } else {
-        match r.below(10) {
+        match r.below(12) {
             0 => SchedKind::Random { sticky: 0 },
             1 => SchedKind::Random { sticky: 50 },
             2 => SchedKind::Random { sticky: 90 },
             3 => SchedKind::RoundRobin,
+            10 => SchedKind::Stall { per_mille: 5, max_len: 300 },
+            11 => SchedKind::Stall { per_mille: 25, max_len: 4000 },
             n => SchedKind::Pct { depth: 1 + ((n - 4) % 5) as u8 + (r.below(2) as u8), est_steps: pilot_steps.max(8) },
         }
     };
@@ -202,6 +204,7 @@ pub fn sched_name(k: &SchedKind) -> String {
         SchedKind::Random { sticky } => format!("random(sticky={})", sticky),
         SchedKind::Pct { depth, .. } => format!("pct(depth={})", depth),
         SchedKind::RoundRobin => "round_robin".into(),
+        SchedKind::Stall { per_mille, max_len } => format!("stall({}/1000,<={})", per_mille, max_len),
     }
 }
 
